@@ -808,3 +808,36 @@ Proof.
   generalize dependent REPEAT_MUL_2. generalize dependent REPEAT_MUL_4. generalize dependent REPEAT_MUL_8.
   intros m8 B8 m4 B4 m2 B2. nia.
 Qed.
+
+(* ------------------------------------------------------------ closed form of try_bit_flips: order and multiplicity *)
+Definition flips_at (a : Z) (reg : option Z) (br : bitrange) (ctx : option context) (rs : list region) (op : memop) (i : Z) : list flip :=
+  let pa := Z.lxor a (2 ^ i) in
+  (if pa =? 0 then [mk_flip a pa reg br ctx] else []) ++
+  match lookup_region rs pa with
+  | Some mi => if possibly_allowed op mi then [mk_flip a pa reg br ctx] else []
+  | None => []
+  end.
+Fixpoint zrange (lo : Z) (n : nat) : list Z := match n with O => [] | S n' => lo :: zrange (lo + 1) n' end.
+
+Lemma flips_loop_exact n : forall i a reg br ctx rs op,
+  flips_loop n i a reg br ctx rs op = flat_map (flips_at a reg br ctx rs op) (zrange i n).
+Proof.
+  induction n as [|n IH]; intros i a reg br ctx rs op; [reflexivity|].
+  cbn [flips_loop zrange flat_map]. unfold flips_at at 1. rewrite IH. rewrite <- app_assoc. reflexivity.
+Qed.
+
+Lemma try_bit_flips_exact a reg br ctx rs op :
+  try_bit_flips a reg br ctx rs op =
+  if (match lookup_region rs a with Some mi => possibly_allowed op mi | None => false end) then []
+  else flat_map (flips_at a reg br ctx rs op) (zrange (br_lo br) (Z.to_nat (br_hi br - br_lo br))).
+Proof.
+  unfold try_bit_flips, br_lo, br_hi.
+  destruct (match lookup_region rs a with Some mi => possibly_allowed op mi | None => false end); [reflexivity|].
+  destruct (br_bounds br) as [lo hi]. cbn [fst snd]. apply flips_loop_exact.
+Qed.
+
+Lemma zrange_spec lo n : forall j, In j (zrange lo n) <-> lo <= j < lo + Z.of_nat n.
+Proof.
+  revert lo. induction n as [|n IH]; intros lo j; cbn [zrange In]; [lia|].
+  rewrite IH. lia.
+Qed.
